@@ -133,13 +133,14 @@ func report(ck *Check, agg *Agg, tier string, seed int64, verifDir string, wall 
 
 	// evidence
 	cov := map[string]any{
-		"evaluations":         agg.Evaluations,
-		"distinct_nontrivial": len(agg.Digests),
-		"rule":                ck.Rule,
-		"planned_cases":       n,
-		"trivial_cases":       agg.Trivial,
-		"inconclusive_cases":  len(agg.Inconclusive),
-		"child_crashes":       agg.Crashes,
+		"evaluations":                agg.Evaluations,
+		"distinct_nontrivial":        len(agg.Digests),
+		"rule":                       ck.Rule,
+		"planned_cases":              n,
+		"trivial_cases":              agg.Trivial,
+		"inconclusive_cases":         len(agg.Inconclusive),
+		"child_crashes":              agg.Crashes - agg.SlowAlone,
+		"slow_cases_completed_alone": agg.SlowAlone,
 	}
 	if ck.Exhaustive != nil {
 		cov["exhaustive"] = ck.Exhaustive(tier) && agg.Evaluations >= int64(n)
